@@ -214,11 +214,14 @@ func cmdCheck(args []string) int {
 
 	// ---- collect
 	type replayJob struct {
-		run   *oneRun
-		v     *violation
-		file  string
-		out   string
-		repro bool
+		run     *oneRun
+		v       *violation
+		file    string
+		out     string
+		repro   bool
+		sample  bool     // a completed (non-violating) path: must also pass natively
+		wantObs []string // engine-side verifObserve values of that path
+		gotObs  []string
 	}
 	var jobsR []*replayJob
 	bad := 0
@@ -244,6 +247,33 @@ func cmdCheck(args []string) int {
 			jobsR = append(jobsR, &replayJob{run: r, v: v, file: filepath.Join(root, "replay", name+".json")})
 		}
 	}
+	// sampled completed paths are replayed too (translator validation): the native run
+	// must finish without assertion failure or panic and observe the same values
+	for _, r := range runs {
+		if r.res == nil {
+			continue
+		}
+		for si, smp := range r.res.Samples {
+			if si >= maxSamplesPerRun {
+				break
+			}
+			vec, _ := smp["one_model_of_path_condition"]
+			var obs []string
+			if o, ok := smp["observed"].([]interface{}); ok {
+				for _, x := range o {
+					obs = append(obs, fmt.Sprint(x))
+				}
+			}
+			name := fmt.Sprintf("%s-%s-sample%d", prop, r.harness, si)
+			if r.params != "" {
+				name += "-" + sanitize(r.params)
+			}
+			f := filepath.Join(outDir, name+".json")
+			b, _ := json.Marshal(map[string]interface{}{"vector": vec})
+			os.WriteFile(f, b, 0o644)
+			jobsR = append(jobsR, &replayJob{run: r, file: f, sample: true, wantObs: obs})
+		}
+	}
 	// ---- native replay of every counterexample
 	replayed := 0
 	if len(jobsR) > 0 {
@@ -255,17 +285,21 @@ func cmdCheck(args []string) int {
 			var wg2 sync.WaitGroup
 			sem2 := make(chan struct{}, 6)
 			for _, j := range jobsR {
-				doc := map[string]interface{}{"property": prop, "harness": j.run.harness, "package": j.run.group.Pkg, "params": j.run.params,
-					"label": j.v.Label, "kind": j.v.Kind, "detail": j.v.Detail, "vector": j.v.Vector, "stack": j.v.Stack}
-				b, _ := json.MarshalIndent(doc, "", " ")
-				os.WriteFile(j.file, b, 0o644)
+				if !j.sample {
+					doc := map[string]interface{}{"property": prop, "harness": j.run.harness, "package": j.run.group.Pkg, "params": j.run.params,
+						"label": j.v.Label, "kind": j.v.Kind, "detail": j.v.Detail, "vector": j.v.Vector, "stack": j.v.Stack}
+					b, _ := json.MarshalIndent(doc, "", " ")
+					os.WriteFile(j.file, b, 0o644)
+				}
 				wg2.Add(1)
 				go func(j *replayJob) {
 					defer wg2.Done()
 					sem2 <- struct{}{}
 					defer func() { <-sem2 }()
-					j.out = nativeReplay(*repo, ovFile, j.run.group.Pkg, j.run.harness, j.run.params, j.file)
-					j.repro = reproduces(j.out, j.v)
+					j.out, j.gotObs = nativeReplay(*repo, ovFile, j.run.group.Pkg, j.run.harness, j.run.params, j.file)
+					if !j.sample {
+						j.repro = reproduces(j.out, j.v)
+					}
 				}(j)
 			}
 			wg2.Wait()
@@ -277,6 +311,25 @@ func cmdCheck(args []string) int {
 	violations := 0
 	knownHit := map[string]bool{}
 	for _, j := range jobsR {
+		if j.sample {
+			okObs := len(j.wantObs) == len(j.gotObs)
+			if okObs {
+				for i := range j.wantObs {
+					if j.wantObs[i] != j.gotObs[i] && !strings.HasSuffix(j.wantObs[i], "=?") {
+						okObs = false
+					}
+				}
+			}
+			if j.out != "ok" || !okObs {
+				fmt.Fprintf(os.Stderr, "SELFCHECK MISMATCH: %s %s: a path the engine completed without violation gives natively %q; observed engine=%v native=%v (vector %s)\n", j.run.harness, j.run.params, j.out, j.wantObs, j.gotObs, j.file)
+				bad++
+				// keep the vector for inspection
+				if data, err := os.ReadFile(j.file); err == nil {
+					os.WriteFile(filepath.Join(root, "replay", filepath.Base(j.file)), data, 0o644)
+				}
+			}
+			continue
+		}
 		if j.v.Known != "" {
 			if j.repro {
 				knownHit[j.v.Known] = true
@@ -385,32 +438,69 @@ func writeReplayOverlay(repo, root, outDir string) (string, error) {
 	return f, os.WriteFile(f, b, 0o644)
 }
 
-func nativeReplay(repo, ovFile, pkg, harness, params, vector string) string {
+var (
+	testBinMu  sync.Mutex
+	testBins   = map[string]string{} // pkg -> compiled test binary ("" = build failed)
+	testBinErr = map[string]string{}
+)
+
+// testBinary compiles (once per package) the package's test binary with all harness
+// files injected through the overlay.
+func testBinary(repo, ovFile, pkg string) (string, string) {
+	testBinMu.Lock()
+	defer testBinMu.Unlock()
+	if b, ok := testBins[pkg]; ok {
+		return b, testBinErr[pkg]
+	}
 	p := "."
 	if pkg != "" && pkg != "." {
 		p = "./" + pkg
 	}
-	cmd := exec.Command("go", "test", "-overlay", ovFile, "-run", "^TestVerifReplay$", "-count=1", "-vet=off", "-timeout", "120s", "-v", p)
+	bin := filepath.Join(filepath.Dir(ovFile), "test-"+sanitize(pkg)+".bin")
+	cmd := exec.Command("go", "test", "-c", "-overlay", ovFile, "-vet=off", "-o", bin, p)
 	cmd.Dir = filepath.Join(repo, "ociregistry")
-	cmd.Env = append(os.Environ(), "GOWORK=off", "GOFLAGS=", "GOPROXY=off", "GOSUMDB=off", "GOTOOLCHAIN=local",
-		"VERIF_REPLAY="+vector, "VERIF_HARNESS="+harness, "VERIF_PARAMS="+params)
+	cmd.Env = append(os.Environ(), "GOWORK=off", "GOFLAGS=", "GOPROXY=off", "GOSUMDB=off", "GOTOOLCHAIN=local")
+	out, err := cmd.CombinedOutput()
+	if err != nil {
+		testBins[pkg] = ""
+		testBinErr[pkg] = "go test -c failed: " + tail(string(out), 10)
+		return "", testBinErr[pkg]
+	}
+	testBins[pkg] = bin
+	return bin, ""
+}
+
+const maxSamplesPerRun = 3
+
+func nativeReplay(repo, ovFile, pkg, harness, params, vector string) (string, []string) {
+	bin, berr := testBinary(repo, ovFile, pkg)
+	if bin == "" {
+		return "no-outcome: " + berr, nil
+	}
+	cmd := exec.Command(bin, "-test.run", "^TestVerifReplay$", "-test.count=1", "-test.timeout", "120s", "-test.v")
+	cmd.Dir = filepath.Join(repo, "ociregistry", pkg)
+	cmd.Env = append(os.Environ(), "VERIF_REPLAY="+vector, "VERIF_HARNESS="+harness, "VERIF_PARAMS="+params)
 	out, _ := cmd.CombinedOutput()
+	var obs []string
 	for _, line := range strings.Split(string(out), "\n") {
+		if strings.HasPrefix(line, "VERIF-OBSERVE ") {
+			obs = append(obs, strings.TrimPrefix(line, "VERIF-OBSERVE "))
+		}
 		if strings.HasPrefix(line, "VERIF-OUTCOME ") {
-			return strings.TrimPrefix(line, "VERIF-OUTCOME ")
+			return strings.TrimPrefix(line, "VERIF-OUTCOME "), obs
 		}
 	}
 	s := string(out)
 	if strings.Contains(s, "panic: test timed out") {
-		return "timeout"
+		return "timeout", obs
 	}
 	if i := strings.Index(s, "panic:"); i >= 0 {
-		return "panic " + firstLine(s[i:])
+		return "panic " + firstLine(s[i:]), obs
 	}
 	if strings.Contains(s, "fatal error:") {
-		return "panic " + firstLine(s[strings.Index(s, "fatal error:"):])
+		return "panic " + firstLine(s[strings.Index(s, "fatal error:"):]), obs
 	}
-	return "no-outcome: " + tail(s, 5)
+	return "no-outcome: " + tail(s, 5), obs
 }
 
 func firstLine(s string) string {
